@@ -3792,3 +3792,84 @@ func ruleCarryLoopCoversIndexZero(r *Report, rule string, pkgFilter func(rel str
 		undecidedf("carry-loop rule matched %d loops (floor %d)", n, floor)
 	}
 }
+
+// ruleTokenOffsetsAreByteOffsets (K11, units): analysis.Token.Start/End are BYTE
+// offsets into the source text.  An offset value must not be computed from the
+// length of a rune slice (len(x) with x of type []rune counts characters):
+// for multi-byte text the two differ and every later offset drifts.
+func ruleTokenOffsetsAreByteOffsets(r *Report, rule string) {
+	p := r.P
+	n := 0
+	for _, fi := range p.flist {
+		rel := relPkg(fi.Pkg.PkgPath)
+		if fi.Decl.Body == nil || !strings.HasPrefix(rel, "analysis") {
+			continue
+		}
+		info := fi.Pkg.TypesInfo
+		// offset expressions: values of Start/End keys in Token literals, and stores to .Start/.End of a Token
+		var offs []ast.Expr
+		ast.Inspect(fi.Decl.Body, func(x ast.Node) bool {
+			switch s := x.(type) {
+			case *ast.CompositeLit:
+				if nt := namedOf(info.TypeOf(s)); nt != nil && nt.Obj().Name() == "Token" {
+					for _, el := range s.Elts {
+						if kv, ok := el.(*ast.KeyValueExpr); ok {
+							if id, ok := kv.Key.(*ast.Ident); ok && (id.Name == "Start" || id.Name == "End") {
+								offs = append(offs, kv.Value)
+							}
+						}
+					}
+				}
+			case *ast.AssignStmt:
+				for i, l := range s.Lhs {
+					if sel, ok := ast.Unparen(l).(*ast.SelectorExpr); ok && (sel.Sel.Name == "Start" || sel.Sel.Name == "End") && i < len(s.Rhs) {
+						if nt := namedOf(info.TypeOf(sel.X)); nt != nil && nt.Obj().Name() == "Token" {
+							offs = append(offs, s.Rhs[i])
+						}
+					}
+				}
+			}
+			return true
+		})
+		for _, off := range offs {
+			n++
+			bad := ""
+			seen := map[types.Object]bool{}
+			var follow func(e ast.Expr)
+			follow = func(e ast.Expr) {
+				ast.Inspect(e, func(x ast.Node) bool {
+					if c, ok := x.(*ast.CallExpr); ok && calleeBuiltin(info, c) == "len" && len(c.Args) == 1 {
+						if t := info.TypeOf(c.Args[0]); t != nil && t.Underlying().String() == "[]rune" {
+							bad = exprStr(c)
+						}
+					}
+					if id, ok := x.(*ast.Ident); ok {
+						o := info.ObjectOf(id)
+						v, isVar := o.(*types.Var)
+						if !isVar || v.IsField() || seen[o] {
+							return true
+						}
+						seen[o] = true
+						ast.Inspect(fi.Decl.Body, func(y ast.Node) bool {
+							if as, ok := y.(*ast.AssignStmt); ok {
+								for i, l := range as.Lhs {
+									if objOf(info, l) == o && i < len(as.Rhs) {
+										follow(as.Rhs[i])
+									}
+								}
+							}
+							return true
+						})
+					}
+					return true
+				})
+			}
+			follow(off)
+			r.Fn(fi)
+			r.Ob(rule, fi.Name+"/offset-"+exprShort(off)+"-counts-bytes", off.Pos(), bad == "", "token offset "+exprStr(off)+" is derived from "+bad+", the number of RUNES; Start/End are byte offsets into the source, so for multi-byte text the token (and every following one) points at the wrong bytes and highlighting marks the wrong span")
+		}
+	}
+	if n < 20 {
+		undecidedf("token offset rule matched %d offset expressions", n)
+	}
+}
